@@ -283,8 +283,54 @@ def job_tour(length, maxnode):
     return held(summary=f"tour parser: sequences of {length} nodes in 1..{maxnode}: {eng.paths} paths {eng.outcomes}", sample=dict(length=length, outcomes=eng.outcomes), **common)
 
 
+def job_selftest(seed):
+    """concrete cross-check through the real loaders: formats, wrappings, round trips, tours"""
+    rnd = random.Random(seed)
+    cnt = 0
+    for _ in range(40):
+        n = rnd.randint(2, 6)
+        fmt = rnd.choice(FORMATS)
+        nums = [rnd.randint(0, 99) for _ in range(count_for(fmt, n))]
+        lines, k = [], 0
+        while k < len(nums):
+            step = rnd.randint(1, 5)
+            lines.append(("  " if rnd.random() < 0.3 else "") + "   ".join(map(str, nums[k:k + step])))
+            k += step
+        w = dict(kind="format", fmt=fmt, n=n, lines=lines)
+        bad, info = replay(w)
+        cnt += 1
+        if bad:
+            w["observed"] = info
+            return violated("explicit_formats", f"tsp/instance.py:_matrix_from_edge_weights/{fmt}", f"{w}", w, validated=cnt, paths=cnt)
+        D = [[0 if i == j else rnd.randint(1, 50) for j in range(n)] for i in range(n)]
+        if rnd.random() < 0.5:
+            for i in range(n):
+                for j in range(i):
+                    D[i][j] = D[j][i]
+        w = dict(kind="roundtrip", D=D)
+        bad, info = replay(w)
+        cnt += 1
+        if bad:
+            w["observed"] = info
+            return violated("stream_roundtrip", "tsp/instance.py:to_stream/_from_stream", f"{w}", w, validated=cnt, paths=cnt)
+        nodes = list(range(1, n + 1))
+        rnd.shuffle(nodes)
+        if rnd.random() < 0.4:
+            nodes[rnd.randrange(n)] = rnd.randint(1, n + 1)
+        cut = rnd.randint(1, n)
+        w = dict(kind="tour", nodes=nodes, groups=[nodes[:cut], nodes[cut:]] if cut < n else [nodes])
+        bad, info = replay(w)
+        cnt += 1
+        if bad:
+            w["observed"] = info
+            return violated("tour_parser", "tsp/known_optima.py:_from_stream", f"{w}", w, validated=cnt, paths=cnt)
+    return held(validated=cnt, paths=cnt, queries={}, summary=f"self-test: {cnt} concrete files through the real loaders / writer / tour parser agree with the format definitions")
+
+
 def jobs(tier):
-    js = []
+    import os
+    seed = int(os.environ.get("VERIF_SEED", "0") or 0)
+    js = [Job("selftest", job_selftest, dict(seed=seed), "selftest", 600)]
     for fmt in FORMATS:
         for n in (2, 3, 4) + ((5,) if tier == "thorough" else ()):
             js.append(Job(f"format/{fmt}/n{n}", job_format, dict(fmt=fmt, n=n, max_paths=1200 if tier == "quick" else 20000), "explicit_formats", 900 if tier == "quick" else 3000))
